@@ -163,8 +163,14 @@ fn authenticate_message(lm_challenge_response: &[u8], nt_challenge_response:&[u8
 fn get_payload_field(message: &Component, length: u16, buffer_offset: u32) -> RdpResult<&[u8]> {
     let payload = cast!(DataType::Slice, message["Payload"])?;
     let offset = message.length() as usize - payload.len();
+    if (buffer_offset as usize) < offset {
+        return Err(Error::RdpError(RdpError::new(RdpErrorKind::InvalidSize, "NTLM: field offset inside the header")))
+    }
     let start = buffer_offset as usize - offset;
     let end = start + length as usize;
+    if end > payload.len() {
+        return Err(Error::RdpError(RdpError::new(RdpErrorKind::InvalidSize, "NTLM: field outside the payload")))
+    }
     Ok(&payload[start..end])
 }
 
